@@ -10,6 +10,7 @@ package engines
 
 import (
 	"bytes"
+	"crypto/tls"
 	"crypto/x509"
 	"encoding/json"
 	"fmt"
@@ -21,6 +22,7 @@ import (
 	"github.com/hashicorp/nodeenrollment/protocol"
 	"github.com/hashicorp/nodeenrollment/registration"
 	"github.com/hashicorp/nodeenrollment/rotation"
+	nodetls "github.com/hashicorp/nodeenrollment/tls"
 	"github.com/hashicorp/nodeenrollment/types"
 	"google.golang.org/protobuf/types/known/timestamppb"
 
@@ -217,6 +219,19 @@ func (h *contRun) recordEnrollment(n *world.Node) bool {
 		pk, _ := x509.MarshalPKIXPublicKey(ca.PublicKey)
 		ev.chains = append(ev.chains, vChain{issuer: rootID(pk), nb: leaf.NotBefore.Add(h.vtotal), na: leaf.NotAfter.Add(h.vtotal)})
 	}
+	// what the node holds must be usable by the library's own client side at once: one of the two
+	// chains may come from a root that is about to be replaced (or has just lapsed), the other one carries on
+	var cfgs []*tls.Config
+	var cerr error
+	if p, st := engine.Guard(func() { cfgs, cerr = nodetls.ClientConfigs(h.s.Ctx, n.Creds) }); p != nil {
+		h.viol("panic:"+engine.LibraryFrame(st), fmt.Sprintf("ClientConfigs panicked on freshly issued credentials: %v", p))
+		return false
+	}
+	if cerr != nil || len(cfgs) == 0 {
+		h.viol("enrolled-node-has-no-usable-chain", fmt.Sprintf("right after a cadence-respecting enrollment the library cannot build a client configuration from the %d bundle(s) the node was given: %v", len(n.Creds.CertificateBundles), cerr))
+		return false
+	}
+	h.c.R.Count("client_configs_built_after_enrollment", 1)
 	h.enrs = append(h.enrs, ev)
 	h.c.R.Count("enrollments", 1)
 	return true
